@@ -888,18 +888,23 @@ func (pr *prover) NonZero(v ssa.Value) bool {
 		}
 	}
 	// explicit != 0 fact (width / int->float conversions keep zero-ness)
-	r := pr.res(v)
-	for i := 0; i < 4; i++ {
-		if cv, ok := r.(*ssa.Convert); ok && !(isFloat(cv.X.Type()) && isIntegral(cv.Type())) {
-			r = pr.res(cv.X)
+	unconv := func(w ssa.Value) ssa.Value {
+		r := pr.res(w)
+		for i := 0; i < 4; i++ {
+			if cv, ok := r.(*ssa.Convert); ok && !(isFloat(cv.X.Type()) && isIntegral(cv.Type())) {
+				r = pr.res(cv.X)
+			}
 		}
+		return r
 	}
+	r := unconv(v)
 	if pr.pa != nil {
 		for _, rel := range pr.pa.Rels(pr.step + 1) {
 			if rel.Op != token.NEQ {
 				continue
 			}
-			if (pr.same(atomVal(rel.X), atomVal(r)) && pr.same(atomVal(rel.Y), pr.zero())) || (pr.same(atomVal(rel.Y), atomVal(r)) && pr.same(atomVal(rel.X), pr.zero())) {
+			rx, ry := unconv(rel.X), unconv(rel.Y)
+			if (pr.same(atomVal(rx), atomVal(r)) && pr.same(atomVal(rel.Y), pr.zero())) || (pr.same(atomVal(ry), atomVal(r)) && pr.same(atomVal(rel.X), pr.zero())) {
 				return true
 			}
 		}
